@@ -154,15 +154,17 @@ def run(repo, rep):
         f = repo.func('dimsemessages', fname)
         rep.analysed(f)
         mp = f.params[1]
-        c = SymClient(repo, f, event_of=c06_ev, hierarchy=hier)
-        c.run(empty_state())
         probs = []
         widths = []
-        for e, s in c.log:
-            if e.kind == 'chunks' and len(e.args) > 1:
-                widths.append((e.args[1], e.conds))
-            if e.kind == 'fp.read' and e.args != ('1',):
-                widths.append((e.args[0], e.conds))
+        if fname == 'fragment':
+            from .c06 import bytes_fragmenter
+            widths = list(bytes_fragmenter(repo, hier, rep)['widths'])
+        else:
+            c = SymClient(repo, f, event_of=c06_ev, hierarchy=hier)
+            c.run(empty_state())
+            for e, s in c.log:
+                if e.kind == 'fp.read' and e.args != ('1',):
+                    widths.append((e.args[0], e.conds))
         if not widths:
             probs.append('no fragment width found')
         from ..sym import inline_pure_calls
